@@ -30,7 +30,7 @@ func init() {
 	mon.RegisterCfg("C14", mon.Config{
 		Rule: "name.Info values (subsets of the library's Macintosh and Windows language tables, every language reached; the 25 named ids, id 15, extra ids up to 65535; strings empty/ASCII/BMP/astral/long, Mac strings over the Mac OS Roman repertoire) are encoded, parsed by the spec-derived reader tabread (record order, offsets, UTF-16BE by the standard library, own Mac OS Roman table) and by x/image, and decoded again; mac.Encode/Decode are checked for inversion on all bytes, random byte strings and random repertoire strings; for every script of the library's OpenType tag tables a spec-side GSUB table holding that script with every language tag (and the default language system) is read, the BCP 47 tags obtained are encoded again and the bytes parsed independently; post tables with nil / standard / permuted / subset / custom / duplicate name lists of 1..65535 glyphs are encoded, read back, parsed by tabread and by x/image. distinct = distinct encoded tables (hash)",
 		Assumptions: []string{
-			"empty strings are 'absent' on both sides; total string storage <= 65535 bytes and at most 5000 name records (16-bit offsets)",
+			"empty strings are 'absent' on both sides; at most 5000 name records; total string storage <= 65535 bytes in the main cases, two long strings (storage up to 128 KiB, every offset below 65536) in the large-storage cases; tables in which a string would start beyond offset 65535 cannot be expressed by the format: there a refusal is accepted and a table that decodes to other strings is not",
 			"the Mac OS Roman repertoire is the one of Apple's ROMAN.TXT (own table, cross-checked against golang.org/x/text)",
 			"Windows strings are valid Unicode (no lone surrogates); windowsEncodingID is 1 (the only one name.Decode understands)",
 			"glyph names are 1..255 bytes; at most 65277 non-standard entries (glyphNameIndex is 16 bit)",
@@ -238,6 +238,7 @@ func runC14(c *mon.Ctx) {
 		expected := map[c14rec]string{}
 		classes := map[string]bool{}
 		huge := r.IntN(40) == 0 // one string of (almost) maximal length
+		overflow := false
 		hugeWin := huge && r.IntN(2) == 0
 		fill := func(macPlatform bool, L *c14langs, forced int) {
 			var tags []string
@@ -369,12 +370,93 @@ func runC14(c *mon.Ctx) {
 				}
 			}
 		}
-		if !hugeWin {
-			fill(true, macL, k.Index)
+		if twoLong := !huge && r.IntN(40) == 1; twoLong {
+			// string storage beyond 64 KiB with every offset and length still
+			// in 16 bits: exactly two distinct long strings (whichever comes
+			// first in the storage area, the other one starts below 65536),
+			// used by several records
+			long := func() string {
+				s, _ := c14string(r, false, 1)
+				for c14units(s, false) != 1 {
+					s, _ = c14string(r, false, 1)
+				}
+				return strings.Repeat(s, 16384+r.IntN(16384))
+			}
+			a, b := long(), long()
+			for a == b {
+				b = long()
+			}
+			n := 0
+			for _, tag := range []string{winL.tag[winL.ids[k.Index%len(winL.ids)]], winL.tags[r.IntN(len(winL.tags))], winL.tags[r.IntN(len(winL.tags))]} {
+				if info.Windows[tag] != nil {
+					continue
+				}
+				t := &name.Table{}
+				info.Windows[tag] = t
+				for _, id := range []uint16{13, 10, 4, uint16(256 + r.IntN(100))}[:1+r.IntN(4)] {
+					s := []string{a, b}[n%2]
+					n++
+					c14set(t, id, s)
+					for _, lang := range winL.back[tag] {
+						expected[c14rec{3, lang, id}] = s
+					}
+				}
+			}
+			if n >= 2 {
+				classes["storage:beyond-64k"] = true
+			}
+			if r.IntN(2) == 0 && n >= 2 {
+				// a third long string: now some string must start beyond offset
+				// 65535, which the format cannot express.  The encoder has no
+				// error return: a refusal (panic) is accepted here, a table that
+				// decodes to other strings is not.
+				var tag string
+				for tg := range info.Windows {
+					if tag == "" || tg < tag {
+						tag = tg
+					}
+				}
+				third := long()
+				for third == a || third == b {
+					third = long()
+				}
+				c14set(info.Windows[tag], 7, third)
+				for _, lang := range winL.back[tag] {
+					expected[c14rec{3, lang, 7}] = third
+				}
+				overflow = true
+				delete(classes, "storage:beyond-64k")
+				classes["storage:offset-beyond-16-bits"] = true
+			}
+		} else {
+			if !hugeWin {
+				fill(true, macL, k.Index)
+			}
+			fill(false, winL, k.Index)
 		}
-		fill(false, winL, k.Index)
 
 		var enc []byte
+		if overflow {
+			k.Class("storage:offset-beyond-16-bits")
+			if pv, _ := mon.Try(func() { enc = info.Encode(1) }); pv != nil {
+				k.Class("storage:offset-beyond-16-bits:refused")
+				return
+			}
+			k.Eval()
+			dec, err := name.Decode(enc)
+			same := err == nil
+			if same {
+				for tag, t := range info.Windows {
+					if dec.Windows[tag] == nil || fmt.Sprint(c14flatten(t)) != fmt.Sprint(c14flatten(dec.Windows[tag])) {
+						same = false
+					}
+				}
+			}
+			if !same {
+				k.Fail("mismatch", "name:storage-offset-overflow-silent", "three strings of %d+ bytes in one table: Encode returns %d bytes without complaint, but the table does not decode to the strings (err=%v): a string that starts beyond offset 65535 of the storage area is written with its offset reduced modulo 65536", 32768, len(enc), err)
+			}
+			return
+		}
 		if k.Guard("name.Info.Encode", func() { enc = info.Encode(1) }) {
 			return
 		}
@@ -577,7 +659,7 @@ func runC14(c *mon.Ctx) {
 			c.Require(fmt.Sprintf("lang:win:%d", id))
 		}
 	}
-	c.Require("id:named", "id:15", "id:26-255", "id:256-32767", "id:32768-65534", "id:65535",
+	c.Require("storage:beyond-64k", "storage:offset-beyond-16-bits", "id:named", "id:15", "id:26-255", "id:256-32767", "id:32768-65534", "id:65535",
 		"string:empty", "string:ascii", "string:bmp", "string:astral", "string:long", "string:32767-units", "string:mac-repertoire", "string:shared",
 		"ximage:name-agrees")
 
